@@ -299,9 +299,37 @@ func ruleDataMatrixEncoder(c *Ctx) {
 					c.Check(R8, "datamatrix.EncodeWithColor/"+callee+"-args", calls[0].Pos(), fmt.Sprint(got) == fmt.Sprint(want), fmt.Sprint(want), fmt.Sprint(got))
 					n.Bind[calls[0]] = map[string]string{"datamatrix.addPadding": "padded", "datamatrix.(*errorCorrection).calcECC": "full"}[callee]
 				}
-				check("datamatrix.addPadding", []string{"data", "call:datamatrix.(*dmCodeSize).DataCodewords(size)"})
-				check("datamatrix.(*errorCorrection).calcECC", []string{"global:datamatrix.ec", "padded", "size"})
-				check("datamatrix.render", []string{"full", "size", "color"})
+				// the codewords that are placed: data padded to the capacity of the chosen size, followed by
+				// the check words computed for that size - wherever in the pipeline the two steps are called
+				_ = check
+				sv := c.P.Func("datamatrix.(*codeLayout).SetValues")
+				svSites := c.P.deepCallsTo(fn, sv)
+				if sv == nil || len(svSites) != 1 {
+					c.Check(R8, "datamatrix.EncodeWithColor/pipeline", fn.Pos(), false, "one SetValues call on the encoding path", fmt.Sprint(len(svSites)))
+				} else {
+					call := svSites[0].Ins.(*ssa.Call)
+					n.NoInline["datamatrix.(*dmCodeSize).DataCodewords"] = true
+					got := n.NormAt(svSites[0], call.Common().Args[len(call.Common().Args)-1]).String()
+					want := "call:datamatrix.(*errorCorrection).calcECC(global:datamatrix.ec,call:datamatrix.addPadding(data,call:datamatrix.(*dmCodeSize).DataCodewords(size)),size)"
+					c.Check(R8, "datamatrix.EncodeWithColor/placed-codewords", call.Pos(), got == want, "calcECC(addPadding(data, size.DataCodewords()), size)", got)
+					// and they are placed into a layout of that same size
+					recv := call.Common().Args[0]
+					if lc, ok := strip(recv).(*ssa.Call); ok && calleeOf(lc) != nil {
+						saved := n.Ctx
+						n.Ctx = svSites[0].Path
+						flat := flatNorms(n, lc.Common().Args)
+						n.Ctx = saved
+						hasSize := false
+						for _, f := range flat {
+							if f == "size" {
+								hasSize = true
+							}
+						}
+						c.Check(R8, "datamatrix.EncodeWithColor/layout-size", lc.Pos(), hasSize, "the layout is created for the chosen size", fmt.Sprint(flat))
+					} else {
+						c.Undecided(R8, "datamatrix.EncodeWithColor/layout-size", call.Pos(), "layout is not created by a constructor call")
+					}
+				}
 			}
 		}
 	}
@@ -339,60 +367,92 @@ func ruleDataMatrixEncoder(c *Ctx) {
 				}
 				got := n.Norm(call.Common().Args[2]).String()
 				c.Check(R7, "datamatrix.calcECC/ecc-count", call.Pos(), got == "call:datamatrix.(*dmCodeSize).ErrorCorrectionCodewordsPerBlock(size)", "ErrorCorrectionCodewordsPerBlock()", got)
-				// inner loops: (j from 0, i from b step BlockCount)
+				// gather and scatter, as affine index maps in the iteration number t of their loop:
+				//   buffer[t] = data[b + t*BlockCount]          while that source index is inside the data
+				//   data[len + b + t*BlockCount] = ecc[t]        for every check word of the block
 				inner := 0
-				for _, blk := range fn.Blocks {
-					if !bh.Succs[0].Dominates(blk) || blk == bh {
-						continue
-					}
-					jphi, init, ok := loopCounter(blk)
-					if !ok || init != 0 {
-						continue
-					}
-					var iphi *ssa.Phi
-					for _, ins := range blk.Instrs {
-						if p, ok := ins.(*ssa.Phi); ok && p != jphi && isIntType(p.Type()) {
-							iphi = p
+				BC := "size.BlockCount"
+				// the codeword slice: the parameter, or the parameter extended by room for the check words
+				isData := func(s string) bool { return s == "data" || strings.HasPrefix(s, "append(data,") }
+				split := func(p Poly) (base, slope Poly) {
+					base, slope = Poly{}, Poly{}
+					for m, cf := range p {
+						fs := splitMono(m)
+						hasT := -1
+						for i, f := range fs {
+							if f == "t" {
+								hasT = i
+							}
 						}
+						if hasT < 0 {
+							base[m] = cf
+							continue
+						}
+						rest := append(append([]string{}, fs[:hasT]...), fs[hasT+1:]...)
+						slope[strings.Join(rest, "*")] = cf
 					}
-					if iphi == nil {
-						continue
-					}
-					inner++
-					for ei, e := range iphi.Edges {
-						if blk.Dominates(blk.Preds[ei]) {
-							n.Bind[iphi] = "i"
-							c.expectPoly(R7, fmt.Sprintf("datamatrix.calcECC/stride#%d", inner), iphi.Pos(), n, e, "i + size.BlockCount")
-							delete(n.Bind, iphi)
-						} else {
-							c.expectPoly(R7, fmt.Sprintf("datamatrix.calcECC/start#%d", inner), iphi.Pos(), n, e, "b")
-						}
-					}
-					n.Bind[iphi], n.Bind[jphi] = "i", "j"
-					bound := n.EdgeCond(blk, blk.Succs[0])
-					eq1, _ := CondEquivalent(bound, MustRefCond("i < len(data)"))
-					want2 := cmpCond(token.LSS, pAtom("i"), pMul(pAtom("call:datamatrix.(*dmCodeSize).ErrorCorrectionCodewordsPerBlock(size)"), pAtom("size.BlockCount")))
-					eq2, _ := CondEquivalent(bound, want2)
-					c.Check(R7, fmt.Sprintf("datamatrix.calcECC/bound#%d", inner), blk.Instrs[0].Pos(), eq1 || eq2, "i < len(data) (gather) or i < eccPerBlock*BlockCount (scatter)", bound.String())
-					// stores in the body
-					eachInstr(fn, func(b2 *ssa.BasicBlock, ins ssa.Instruction) {
-						st, ok := ins.(*ssa.Store)
-						if !ok || b2 != blk.Succs[0] {
-							return
-						}
-						ia, ok := st.Addr.(*ssa.IndexAddr)
-						if !ok {
-							return
-						}
-						if eq1 {
-							c.expectPoly(R7, "datamatrix.calcECC/gather-dst", st.Pos(), n, ia.Index, "j")
-						} else {
-							c.expectPoly(R7, "datamatrix.calcECC/scatter-dst", st.Pos(), n, ia.Index, "len(data) + i")
-						}
-					})
-					delete(n.Bind, iphi)
-					delete(n.Bind, jphi)
+					return
 				}
+				eachInstr(fn, func(b2 *ssa.BasicBlock, ins ssa.Instruction) {
+					st, ok := ins.(*ssa.Store)
+					if !ok || !bh.Succs[0].Dominates(b2) {
+						return
+					}
+					dst, ok := st.Addr.(*ssa.IndexAddr)
+					if !ok {
+						return
+					}
+					h := enclosingLoopHeader(b2)
+					if h == nil || h == bh {
+						return
+					}
+					// source element
+					var src *ssa.IndexAddr
+					v := strip(st.Val)
+					for d := 0; d < 3; d++ {
+						if cv, ok := v.(*ssa.Convert); ok {
+							v = cv.X
+						}
+					}
+					if ld, ok := v.(*ssa.UnOp); ok {
+						src, _ = ld.X.(*ssa.IndexAddr)
+					}
+					if src == nil {
+						return
+					}
+					env := map[ssa.Value]Poly{}
+					for _, lv := range loopShapes(n, h) {
+						env[lv.idx] = pAdd(lv.init, pMul(pAtom("t"), lv.step), 1)
+					}
+					n.env = append(n.env, env)
+					dBase, dSlope := split(n.Norm(dst.Index))
+					sBase, sSlope := split(n.Norm(src.Index))
+					cond := n.EdgeCond(h, h.Succs[0])
+					n.env = n.env[:len(n.env)-1]
+					one := pConst(1)
+					switch {
+					case dst.X == ssa.Value(mk):
+						inner++
+						c.Check(R7, "datamatrix.calcECC/gather-dst", st.Pos(), pEqual(dBase, pConst(0)) && pEqual(dSlope, one), "buffer[t]", fmt.Sprintf("buffer[%s + t*(%s)]", dBase, dSlope))
+						c.Check(R7, "datamatrix.calcECC/gather-src", st.Pos(), isData(n.Norm(src.X).String()) && pEqual(sBase, pAtom("b")) && pEqual(sSlope, pAtom(BC)), "data[b + t*BlockCount]", fmt.Sprintf("%s[%s + t*(%s)]", n.Norm(src.X), sBase, sSlope))
+						eq1, _ := CondEquivalent(cond, MustRefCond("b + t*size.BlockCount < len(data)"))
+						eq2, _ := CondEquivalent(cond, cmpCond(token.LSS, pAtom("t"), pAtom("call:datamatrix.(*dmCodeSize).DataCodewordsForBlock(size,b)")))
+						c.Check(R7, "datamatrix.calcECC/gather-bound", st.Pos(), eq1 || eq2, "while b + t*BlockCount < len(data) (or t < buffer length)", cond.String())
+					case isData(n.Norm(dst.X).String()):
+						inner++
+						c.Check(R7, "datamatrix.calcECC/scatter-src", st.Pos(), pEqual(sBase, pConst(0)) && pEqual(sSlope, one) && src.X == ssa.Value(call), "ecc[t]", fmt.Sprintf("%s[%s + t*(%s)]", n.Norm(src.X), sBase, sSlope))
+						c.Check(R7, "datamatrix.calcECC/scatter-dst", st.Pos(), pEqual(dBase, MustRef("len(data) + b")) && pEqual(dSlope, pAtom(BC)), "data[len + b + t*BlockCount]", fmt.Sprintf("data[%s + t*(%s)]", dBase, dSlope))
+						ecc := "call:datamatrix.(*dmCodeSize).ErrorCorrectionCodewordsPerBlock(size)"
+						w1 := cmpCond(token.LSS, pAdd(pAtom("b"), pMul(pAtom("t"), pAtom(BC)), 1), pMul(pAtom(ecc), pAtom(BC)))
+						w2 := cmpCond(token.LSS, pAtom("t"), pAtom(ecc))
+						nn := n.Norm(call).asAtom()
+						w3 := cmpCond(token.LSS, pAtom("t"), pAtom("len("+nn+")"))
+						eq1, _ := CondEquivalent(cond, w1)
+						eq2, _ := CondEquivalent(cond, w2)
+						eq3, _ := CondEquivalent(cond, w3)
+						c.Check(R7, "datamatrix.calcECC/scatter-bound", st.Pos(), eq1 || eq2 || eq3, "for every check word of the block", cond.String())
+					}
+				})
 				c.Check(R7, "datamatrix.calcECC/inner-loops", fn.Pos(), inner == 2, "gather and scatter loops", fmt.Sprint(inner))
 			}
 		}
